@@ -422,6 +422,8 @@ def h_disc(ctx, cfg):
         steps = elems(step)
         for h in steps:
             _assume_step(ctx, h)
+    elif via == "switch":
+        step = steps = 0.25   # set on the approximator object after the switch (1e-7, the default, cancels too much in a float64 replay)
     elif cfg.get("h"):
         step = steps = float(cfg["h"])  # concrete step (keeps the centred / complex-step queries polynomial in the other symbols)
     else:
@@ -433,7 +435,17 @@ def h_disc(ctx, cfg):
         approx = DisciplineJacApprox(disc, approx_method=METHODS[method], step=step)
         jac = _guarded(ctx, "compute_approx_jac", lambda: approx.compute_approx_jac(output_names, input_names, x_indices))
     else:
-        disc.set_jacobian_approximation(jac_approx_type=METHODS[method], jax_approx_step=step)
+        if via == "switch":
+            # the mode is selected through the public attribute, after another approximation mode was selected (and used):
+            # the approximation must be the one of the LAST selected mode (default step 1e-7)
+            disc.linearization_mode = METHODS[cfg["from"]]
+            if cfg.get("use_first"):
+                disc.linearize(point, compute_all_jacobians=True)
+                del poly.calls[:]
+            disc.linearization_mode = METHODS[method]
+            disc._jac_approx.step = step   # whichever approximator the discipline holds now gets the step of the oracle
+        else:
+            disc.set_jacobian_approximation(jac_approx_type=METHODS[method], jax_approx_step=step)
         if cfg.get("all"):
             jac = _guarded(ctx, "linearize", lambda: disc.linearize(point, compute_all_jacobians=True))
         else:
@@ -554,6 +566,9 @@ def configs(tier):
         D(method=method, via="linearize", inputs=["b", "a"], outputs=["z"], **h)
         D(method=method, via="linearize", inputs=["a"], outputs=["z", "y"], at_defaults=True, **h)
         D(method=method, via="linearize", inputs=["b"], outputs=["y"], **h)
+        for other in ("fd", "cd"):
+            if other != method and method != "cs":
+                D(method=method, via="switch", inputs=["a", "b"], outputs=["y", "z"], all=True, use_first=(other == "fd"), **{"from": other})
         if method != "cs":
             D(method=method, via="jacapprox", inputs=["a", "b"], outputs=["y", "z"], vec_step=True)
         if tier == "thorough":
